@@ -18,8 +18,12 @@ pub async fn write_exclusive(
         .write(true)
         .open(path.as_ref())
         .await?;
+    #[cfg(sos_verif)]
+    sos_core::verif_hooks::probe("fs.write_exclusive.emptied");
     let mut guard = file.lock_write().await.map_err(|e| e.error)?;
     guard.write_all(buf.as_ref()).await?;
     guard.flush().await?;
+    #[cfg(sos_verif)]
+    sos_core::verif_hooks::probe("fs.write_exclusive.written");
     Ok(())
 }
